@@ -753,4 +753,9 @@ def run(ctx):
         else:
             res.add([finding("I-PRIVATE", key, "witness/src/lib.rs", "a compile-fail witness no longer fails (or a twin no longer compiles): %s" % tail[-400:])])
     res.add([assumption("DESER", CA, "crates/tx3-tir/src/model/assets.rs", "the derived Deserialize is a second constructor: a decoded UTxO may carry zero entries (values decoded from the wire are not re-normalised)")])
+    # x - y = x + (-y) through the reducer needs sums and negations of asset values to stay asset values (`None` is the absent
+    # operand: `None - y` is `y`): rule shared with C01
+    from . import c01
+    res.rule("KIND", "asset arithmetic of the reducer never yields the absent operand None")
+    c01.arith_kind(F, res)
     return res
